@@ -5,10 +5,12 @@ package main
 // through the expected verdict. A trace specification that constrained nothing would accept them.
 
 import (
+	"bytes"
 	"encoding/json"
 	"fmt"
 	"os"
 	"path/filepath"
+	"strings"
 	"time"
 )
 
@@ -164,6 +166,38 @@ func selftest(args []string) int {
 		ph := m["phases"].([]any)
 		ph[len(ph)-1].(map[string]any)["doc"] = doc
 	}))
+	// (6) a run with a name collision: the logged parents of a de-duplication step are corrupted (one dropped) - the step is no
+	//     longer the model's StripFor with the parents the model computes
+	var cc *Case
+	for _, x := range sc {
+		if x.Bundle.Feat.Collision && !x.Bundle.Feat.Anon && strings.Contains(x.Note, ",code,") {
+			cc = x
+			break
+		}
+	}
+	hasCtx := false
+	if cc != nil {
+		rq2 := cc.Req("flatten", flattenArgs{Opts: flattenOpts{Minimal: true}, InW: true, Phases: true})
+		rq2.ID = "ctxbase"
+		r2 := pool.RunOne(rq2, 20*time.Second)
+		if r2.Err == "" && r2.Crash == "" && bytes.Contains(r2.Rec, []byte(`"ev":"strip.one"`)) {
+			hasCtx = true
+			recs = append(recs, r2.Rec)
+			recs = append(recs, withTid(r2.Rec, "ctxparents", func(m map[string]any) {
+				for _, e := range m["events"].([]any) {
+					ev := e.(map[string]any)
+					if ps, ok := ev["parents"].([]any); ok && ev["ev"] == "strip.one" && len(ps) > 0 {
+						if len(ps) > 1 {
+							ev["parents"] = ps[:len(ps)-1]
+						} else {
+							ev["parents"] = append(ps, []any{"definitions", "noSuchHolder"})
+						}
+						break
+					}
+				}
+			}))
+		}
+	}
 	tl, err := RunTraceValidation(filepath.Join(scratch, "fl"), "Trace_Flatten", recs, 5*time.Minute)
 	if err != nil || tl == nil || !tl.OK {
 		fmt.Println("TLC failed:", err)
@@ -181,6 +215,12 @@ func selftest(args []string) int {
 	expect("flatten: logged import name corrupted -> STEPS", v["wrongname"]["STEPS"], false)
 	expect("flatten: stale reference in passed-in analyzer -> C10", v["stale"]["C10"], false)
 	expect("flatten: unused definition left -> C06", v["leftover"]["C06"], false)
+	if hasCtx {
+		expect("flatten: untouched collision run conforms to the context model (CTX)", v["ctxbase"]["CTX"], true)
+		expect("flatten: logged parents of a de-duplication step corrupted -> CTX", v["ctxparents"]["CTX"], false)
+	} else {
+		fmt.Println("selftest: no collision scenario with a de-duplication step available (CTX corruption not exercised)")
+	}
 
 	// ---- Analyzer: drop one indexed reference ---------------------------------------------------------------------
 	g := NewGen(7, analyzerGenOpts(1))
